@@ -1,8 +1,8 @@
 #!/bin/bash
 # usage: tools/seedtest.sh <patch.diff> <prop> [<prop>...]
 # Applies a patch to a scratch worktree of /repo's HEAD (never to /repo) and runs the given checks against it.
-WT=/tmp/wt_lead
-cd /verif
+WT=${WT:-/tmp/wt_lead}
+cd "$(dirname "$0")/.."
 [ -d $WT ] || git -C /repo worktree add --detach $WT >/dev/null 2>&1
 git -C $WT reset -q --hard; git -C $WT checkout -q --detach $(git -C /repo rev-parse HEAD); git -C $WT reset -q --hard
 patch=$(realpath "$1"); shift
@@ -10,7 +10,7 @@ if ! git -C $WT apply "$patch" 2>/dev/null; then
   echo "PATCH-DOES-NOT-APPLY $patch"; git -C $WT reset -q --hard; exit 2
 fi
 for p in "$@"; do
-  out=$(BV_REPO=$WT timeout 900 ./check $p --tier ${TIER:-quick} 2>/dev/null | grep -E "^VIOLATION|^KNOWN" | sed 's#replay=/verif/replays/##' | tr '\n' ';')
+  out=$(BV_REPO=$WT timeout 900 ./check $p --tier ${TIER:-quick} 2>/dev/null | grep -E "^VIOLATION|^KNOWN" | sed 's#replay=[^ ]*/replays/##' | tr '\n' ';')
   echo "$p: ${out:-quiet}"
 done
 git -C $WT reset -q --hard; git -C $WT clean -fdq -e target
